@@ -84,6 +84,9 @@ def check(run, replay_case=None):
                 # a serde struct whose field order differs from the schema: fields are held back and emitted later
                 rev = ['struct', pl[1], list(reversed(pl[2]))]
                 scen.append({'cid': 'x%d' % i, 'schema': j, 'kind': 'datum-serde-out-of-order-fields', 'scenario': {'op': 'datum_write_ser', 'sid': sid, 'plan': rev, 'legacy_fn': i % 2 == 0}})
+                # the same record serialized as a serde map with a known length (what HashMap/BTreeMap do): accepted against a record schema
+                asmap = ['map', [[['str', f], p] for f, p in pl[2]]]
+                scen.append({'cid': 'm%d' % i, 'schema': j, 'kind': 'datum-serde-record-as-map', 'scenario': {'op': 'datum_write_ser', 'sid': sid, 'plan': asmap, 'legacy_fn': i % 2 == 1}})
                 rot = ['struct', pl[1], pl[2][1:] + pl[2][:1]]
                 scen.append({'cid': 'y%d' % i, 'schema': j, 'kind': 'datum-serde-out-of-order-fields', 'scenario': {'op': 'datum_write_ser', 'sid': sid, 'plan': rot, 'target_block_size': 8}})
             if i % 3 == 0:
